@@ -300,3 +300,74 @@ def apalache_obligations(tmp: str, timeout: int = 300) -> list[dict]:
         res.append(rec)
     shutil.rmtree(work, ignore_errors=True)
     return res
+
+
+# ------------------------------------------------------------------ Request-level consumers
+REQ_CONSUMERS = ["req_get_data", "req_get_data_nocache", "req_data", "req_get_data_text", "req_get_json", "req_form"]
+
+
+def _req_consume(req, op):
+    """Call one consumer of the body on a fresh Request and return the body bytes it delivered
+    (decoded results are re-encoded: the scenario bodies are chosen so that this is exact)."""
+    import json
+
+    if op == "req_get_data":
+        return req.get_data()
+    if op == "req_get_data_nocache":
+        return req.get_data(cache=False)
+    if op == "req_data":
+        return req.data
+    if op == "req_get_data_text":
+        return req.get_data(as_text=True).encode("utf-8")
+    if op == "req_get_json":
+        return json.dumps(req.get_json(force=True), separators=(",", ":")).encode("ascii")
+    if op == "req_form":
+        return "&".join(f"{k}={v}" for k, v in req.form.items(multi=True)).encode("ascii")
+    if op == "req_stream_read":
+        return req.stream.read()
+    if op == "req_close":
+        req.close()
+        return b""
+    raise AssertionError(op)
+
+
+def run_request(case: dict) -> list[dict]:
+    """case: {data, limit, is_max, hasri, plan, default, consumer, max (-1 = unset), send_cl}.
+    is_max False: CONTENT_LENGTH = limit on an unterminated input; is_max True: wsgi.input_terminated
+    with max_content_length = limit (CONTENT_LENGTH only when send_cl, = len(data)).  One fresh
+    Request; lines: the consumer, then request.stream.read(), then Request.close()."""
+    from werkzeug.wrappers import Request
+
+    data = bytes(case["data"])
+    u = make_underlying(data, case["plan"], case["hasri"], case.get("default", HUGE), guard=4 * (len(data) + case["limit"]) + 64)
+    ctype = {"req_get_json": "application/json", "req_form": "application/x-www-form-urlencoded"}.get(case["consumer"], "text/plain")
+    env = {"wsgi.input": u, "REQUEST_METHOD": "POST", "CONTENT_TYPE": ctype, "SERVER_NAME": "localhost",
+           "SERVER_PORT": "80", "wsgi.url_scheme": "http", "PATH_INFO": "/", "SCRIPT_NAME": "", "QUERY_STRING": ""}
+    if case["is_max"]:
+        env["wsgi.input_terminated"] = True
+        if case.get("send_cl"):
+            env["CONTENT_LENGTH"] = str(len(data))
+    else:
+        env["CONTENT_LENGTH"] = str(case["limit"])
+    req = Request(env)
+    if case["is_max"]:
+        req.max_content_length = case["limit"]
+    elif case.get("max", -1) >= 0:
+        req.max_content_length = case["max"]
+    lines = [{"op": "cfg", "data": list(data), "limit": case["limit"], "is_max": bool(case["is_max"]),
+              "hasri": bool(case["hasri"]), "wrapper": "raw", "bufsize": 0, "exp": []}]
+    for i, op in enumerate([case["consumer"], "req_stream_read", "req_close"]):
+        rec = {"rk": "bytes", "rb": [], "rx": "", "cuts": [], "bafter": [], "bn": -1}
+        try:
+            rec["rb"] = list(_req_consume(req, op))
+        except HangGuard:
+            rec["rk"], rec["rx"] = "exc", "HangGuard"
+        except Exception as e:  # noqa: BLE001
+            rec["rk"], rec["rx"] = "exc", type(e).__name__
+        try:
+            pos = int(req.stream.tell())
+        except Exception:  # noqa: BLE001
+            pos = -1
+        rec.update({"i": i, "op": op, "n": -1, "ev": u.drain_log(), "pos": pos})
+        lines.append(rec)
+    return lines
